@@ -22,6 +22,14 @@ ASSUMPTIONS = [
 
 def gen(rng, tier, no, wide=False):
     case = CP.gen_cp_case(rng)
+    if rng.random() < 0.3:
+        # clock jitter as real traces have it: a few events end one time unit late (a child past its parent, a kernel
+        # into the next one of its stream). The analysis tolerates the resulting negative edge weights and reports
+        # success; the property is about every graph a successful analysis produces, so these graphs must round-trip too
+        xs = [e for e in case["ranks"][case["params"]["rank"]] if e.get("ph") == "X" and "dur" in e and e.get("cat") in ("cuda_runtime", "cuda_driver", "kernel", "gpu_memcpy", "gpu_memset", "cpu_op")]
+        for e in rng.sample(xs, min(len(xs), rng.randint(1, 4))):
+            e["dur"] += 1
+        case["params"]["jitter"] = True
     case["params"]["cycles"] = rng.choice([1, 1, 2, 3])
     # a history over two directory names: saves, restores and what-if modifications of the current graph in between
     hist = []
